@@ -893,6 +893,10 @@ func Run(r *ev.Run) {
 	r.Rule = "(1) RFC 1928 conformance: greetings x requests x agent answers; every chunking of each client flight into <=3 segments; pipelined delivery; truncation at every byte; each run executes the real accept loop, handler, relay goroutine and COMMAND_SOCKET callbacks under the controlled scheduler and is judged by a reference automaton; (2) relay integrity for every chunking of upstream/downstream data and both closing sides; (3) every schedule within the preemption bound of agent callbacks | operator proxy commands | client | relay on the socket/proxy tables. distinct = outcome classes"
 	r.Assume("the TCP listener and client are scripted in-memory doubles (net.Listen/net.Dial are redirected by the instrumenter in pkg/socks and pkg/agent)",
 		"reverse port-forward data path (real outbound dial) is not exercised; its table operations are")
+	if os.Getenv("VERIF_RACE_PASS") != "" {
+		runFree(r)
+		return
+	}
 	if !vsched.Instrumented {
 		r.Violate("harness/not-instrumented", "C15 needs the sched build", nil)
 		return
